@@ -1,30 +1,43 @@
 ----------------------------- MODULE ReaderTrace -----------------------------
 (***************************************************************************)
-(* Trace specification for recorded executions of the real TagIterator.    *)
-(* One step per recorded event.  MODE (environment variable) selects what  *)
-(* the events are checked against:                                         *)
+(* Trace specification for recorded executions of the real TagIterator     *)
+(* (and TagIteratorAsync).  One step per recorded event.  MODE             *)
+(* (environment variable) selects what the events are checked against:     *)
 (*   L1   full conformance with the Level 1 design ReaderCore: every field  *)
 (*        of every result of every call is bound (statistic / diagnosis,    *)
 (*        never a verdict by itself);                                       *)
 (*   Cxx  the property specification P_Cxx (Level 0): a monitor over the   *)
-(*        observables that property constrains, plus relations between     *)
-(*        the runs of a case evaluated at its `end` event (the verdict).   *)
+(*        observables that property constrains, advanced by every event of  *)
+(*        a run, plus relations between the runs of a case evaluated at its *)
+(*        `end` event (the verdict).                                        *)
 (* A rejected case prints REJECT and is skipped up to the next `case`.     *)
 (***************************************************************************)
 EXTENDS TraceBase, ReaderCore
 VARIABLES l,        \* next line of Rec to consume
-          c,        \* current case: [n, sch, start (line of the case event)]
+          c,        \* current case: [n, sch, start (line of the case event), hdr]
           run,      \* current run: [inp, cfg, tag, start]
           r,        \* Level 1 reader state (MODE = L1)
+          m,        \* monitor state of the property specification (MODE = Cxx)
           skip      \* TRUE while the rest of a rejected case is skipped
-vars == <<l, c, run, r, skip>>
+vars == <<l, c, run, r, m, skip>>
+
+P03 == INSTANCE P_C03
+P04 == INSTANCE P_C04
+P05 == INSTANCE P_C05
+P06 == INSTANCE P_C06
+P07 == INSTANCE P_C07
+P08 == INSTANCE P_C08
+P12 == INSTANCE P_C12
+P13 == INSTANCE P_C13
+P14 == INSTANCE P_C14
 
 Mode == IF "MODE" \in DOMAIN IOEnv THEN IOEnv.MODE ELSE "L1"
 SeqToSet(s) == {s[i] : i \in 1..Len(s)}
 CfgOf(j) == [allowId |-> j.allowId, allowHier |-> j.allowHier, allowSize |-> j.allowSize, hasMax |-> j.hasMax,
              max |-> j.max, buffered |-> SeqToSet(j.buffered), eofClose |-> j.eofClose]
+Strict(cfg) == ~cfg.allowId /\ ~cfg.allowHier /\ ~cfg.allowSize
 
-(* equality of a recorded result with a specified one, on exactly the specified fields *)
+(* ---------------- Level 1: recorded result = specified result ---------------- *)
 RECURSIVE KidsEq(_, _)
 KidEq(a, b) == /\ a.kind = b.kind /\ a.id = b.id /\ a.ty = b.ty
                /\ (IF a.ty = "float" THEN FloatEq(a.val, b.val) ELSE a.val = b.val)
@@ -35,35 +48,98 @@ ResEq(e, s) ==
   /\ e.res = "item" => /\ e.off = s.off /\ KidEq(e, s)
   /\ e.res = "err"  => /\ e.ekind = s.ekind /\ e.pos = s.pos /\ e.has_id = s.has_id /\ e.id = s.id
                        /\ e.has_size = s.has_size /\ e.size = s.size /\ e.has_partial = s.has_partial
-                       /\ e.partial = Take(s.partial, 4096) /\ e.partial_len = Len(s.partial) /\ e.has_parent = s.has_parent /\ e.parent = s.parent
-\* short description of a specified result, for REJECT lines
+                       /\ e.partial = Take(s.partial, 4096) /\ e.partial_len = Len(s.partial)
+                       /\ e.has_parent = s.has_parent /\ e.parent = s.parent
 Brief(s) == IF s.res = "item" THEN <<s.kind, s.id, s.off>> ELSE IF s.res = "err" THEN <<s.ekind, s.pos, s.id>> ELSE <<s.res>>
 
-Init == l = 1 /\ c = [n |-> -1, sch |-> <<>>, start |-> 0] /\ run = [inp |-> <<>>, cfg |-> <<>>, tag |-> "", start |-> 0]
-        /\ r = InitReader /\ skip = FALSE
+(* ---------------- Level 0: dispatch to the property specification ---------------- *)
+Trivial == [ok |-> TRUE, why |-> ""]
+MonInit == CASE Mode = "C03" -> P03!M0 [] Mode = "C05" -> P05!M0 [] Mode = "C06" -> P06!M0
+             [] Mode = "C07" -> P07!M0 [] Mode = "C14" -> P14!M0 [] OTHER -> Trivial
+\* which runs a monitor speaks about
+Applies == CASE Mode = "C06" -> Strict(run.cfg) [] OTHER -> TRUE
+MonStep(e) ==
+  IF ~Applies THEN m
+  ELSE CASE Mode = "C03" -> P03!Step(c.sch, run.inp, run.cfg, m, e)
+         [] Mode = "C05" -> P05!Step(c.sch, run.inp, run.cfg, m, e)
+         [] Mode = "C06" -> P06!Step(c.sch, run.inp, run.cfg, m, e)
+         [] Mode = "C07" -> P07!Step(c.sch, run.inp, run.cfg, m, e)
+         [] Mode = "C14" -> P14!Step(c.sch, run.inp, run.cfg, m, e)
+         [] OTHER -> m
+MonRead(e) == IF Mode = "C05" THEN P05!StepRead(run.inp, m, e) ELSE m
 
-StepCase(e) == /\ c' = [n |-> e.n, sch |-> e.schema, start |-> l] /\ skip' = FALSE
-               /\ run' = [inp |-> <<>>, cfg |-> <<>>, tag |-> "", start |-> 0] /\ r' = InitReader
+\* the runs of the current case, from the recorded lines a..b: [tag, inp, cfg, evs]
+RECURSIVE CollectRuns(_, _, _)
+CollectRuns(i, b, acc) ==
+  IF i > b THEN acc
+  ELSE LET e == Rec[i] IN
+    IF e.ev = "run" THEN CollectRuns(i + 1, b, Append(acc, [tag |-> e.tag, inp |-> e.input, cfg |-> CfgOf(e.cfg), evs |-> <<>>]))
+    ELSE IF e.ev \in {"next", "recover"} /\ acc # <<>> THEN CollectRuns(i + 1, b, [acc EXCEPT ![Len(acc)].evs = Append(@, e)])
+    ELSE CollectRuns(i + 1, b, acc)
+\* first non-empty string of a sequence of verdict strings
+RECURSIVE FirstBad(_, _)
+FirstBad(s, i) == IF i > Len(s) THEN "" ELSE IF s[i] # "" THEN s[i] ELSE FirstBad(s, i + 1)
+Rel(h, runs) ==
+  LET n == Len(runs)  rel == h.rel IN
+  IF n = 0 THEN ""
+  ELSE CASE Mode = "C07" /\ rel = "enc" ->
+         FirstBad([i \in 1..n |-> IF i > 1 /\ ~P07!SameTags(runs[1].evs, runs[i].evs)
+                                  THEN "C07: encoding " \o runs[i].tag \o " does not read as the same tags as the all-known-size encoding" ELSE ""], 1)
+    [] Mode = "C08" /\ rel = "buf" ->
+         FirstBad([i \in 1..n |-> IF i = 1 THEN ""
+                                  ELSE IF ~P08!OnlyRequested(runs[i].evs, runs[i].cfg) THEN "C08: Full/Start items do not follow the requested buffered set"
+                                  ELSE P08!Rel(runs[1].evs, runs[i].evs)], 1)
+    [] Mode \in {"C04", "C20"} /\ rel = "sched" ->
+         FirstBad([i \in 1..n |-> IF i = 1 THEN "" ELSE P04!Rel(runs[1].evs, runs[i].evs)], 1)
+    [] Mode = "C12" /\ rel = "cut" ->
+         FirstBad([i \in 1..n |-> IF i = 1 THEN "" ELSE P12!Rel(c.sch, runs[1].inp, runs[1].evs, runs[i].evs, Len(runs[i].inp))], 1)
+    [] Mode = "C13" /\ rel = "tol" ->
+         FirstBad([i \in 1..n |-> P13!RunOk(runs[i].cfg, runs[i].evs)], 1) \o
+         (IF h.fault.class # "" THEN
+            FirstBad([i \in 1..n |-> IF Strict(runs[i].cfg) THEN P13!FaultOk(h.fault, runs[i].evs)
+                                     ELSE P13!ToleratedOk(h.fault, runs[i].cfg, runs[i].evs)], 1) ELSE "") \o
+         (IF h.root THEN
+            FirstBad([i \in 1..n |-> LET s == CHOOSE j \in 1..n : Strict(runs[j].cfg) /\ runs[j].cfg.hasMax = runs[i].cfg.hasMax /\ runs[j].cfg.max = runs[i].cfg.max
+                                     IN P13!StrictPrefix(runs[s].evs, runs[i].evs)], 1) ELSE "")
+    [] Mode = "C14" /\ rel = "junk" -> P14!Rel(runs[1].evs, runs[2].evs, h.at, h.n)
+    [] OTHER -> ""
+
+Init == l = 1 /\ c = [n |-> -1, sch |-> <<>>, start |-> 0, hdr |-> <<>>]
+        /\ run = [inp |-> <<>>, cfg |-> <<>>, tag |-> "", start |-> 0]
+        /\ r = InitReader /\ m = Trivial /\ skip = FALSE
+
+StepCase(e) == /\ c' = [n |-> e.n, sch |-> e.schema, start |-> l, hdr |-> e] /\ skip' = FALSE
+               /\ run' = [inp |-> <<>>, cfg |-> <<>>, tag |-> "", start |-> 0] /\ r' = InitReader /\ m' = Trivial
 StepRun(e)  == /\ run' = [inp |-> e.input, cfg |-> CfgOf(e.cfg), tag |-> e.tag, start |-> l]
-               /\ r' = InitReader /\ UNCHANGED <<c, skip>>
+               /\ r' = InitReader /\ m' = MonInit /\ UNCHANGED <<c, skip>>
 StepNextL1(e) ==
   LET s == NextCall(c.sch, run.cfg, run.inp, r) IN
-  IF ResEq(e, s.res) THEN r' = s.r /\ UNCHANGED <<c, run, skip>>
-  ELSE Reject(l, <<"L1 next", c.n, run.tag, "expected", Brief(s.res)>>) /\ skip' = TRUE /\ UNCHANGED <<c, run, r>>
+  IF ResEq(e, s.res) THEN r' = s.r /\ UNCHANGED <<c, run, m, skip>>
+  ELSE Reject(l, <<"L1 next", c.n, run.tag, "expected", Brief(s.res)>>) /\ skip' = TRUE /\ UNCHANGED <<c, run, r, m>>
 StepRecoverL1(e) ==
   LET s == RecoverCall(c.sch, run.cfg, run.inp, r) IN
-  IF (s.ok /\ e.res = "ok") \/ (~s.ok /\ e.res = "eof" /\ e.pos = s.e.pos) THEN r' = s.r /\ UNCHANGED <<c, run, skip>>
-  ELSE Reject(l, <<"L1 recover", c.n, run.tag, "expected ok", s.ok>>) /\ skip' = TRUE /\ UNCHANGED <<c, run, r>>
+  IF (s.ok /\ e.res = "ok") \/ (~s.ok /\ e.res = "eof" /\ e.pos = s.e.pos) THEN r' = s.r /\ UNCHANGED <<c, run, m, skip>>
+  ELSE Reject(l, <<"L1 recover", c.n, run.tag, "expected ok", s.ok>>) /\ skip' = TRUE /\ UNCHANGED <<c, run, r, m>>
+StepMon(e) ==
+  LET m1 == IF e.ev = "read" THEN MonRead(e) ELSE MonStep(e) IN
+  IF m1.ok THEN m' = m1 /\ UNCHANGED <<c, run, r, skip>>
+  ELSE Reject(l, <<c.n, run.tag, m1.why>>) /\ skip' = TRUE /\ UNCHANGED <<c, run, r, m>>
+StepEnd(e) ==
+  LET why == IF Mode = "L1" \/ ~("rel" \in DOMAIN c.hdr) THEN "" ELSE Rel(c.hdr, CollectRuns(c.start + 1, l - 1, <<>>)) IN
+  IF why = "" THEN UNCHANGED <<c, run, r, m, skip>>
+  ELSE Reject(l, <<c.n, "end", why>>) /\ skip' = TRUE /\ UNCHANGED <<c, run, r, m>>
 
 Next ==
   /\ l <= NRec
   /\ l' = l + 1
   /\ LET e == Rec[l] IN
      IF e.ev = "case" THEN StepCase(e)
-     ELSE IF skip THEN UNCHANGED <<c, run, r, skip>>
+     ELSE IF skip THEN UNCHANGED <<c, run, r, m, skip>>
      ELSE IF e.ev = "run" THEN StepRun(e)
-     ELSE IF e.ev = "next" /\ Mode = "L1" THEN StepNextL1(e)
-     ELSE IF e.ev = "recover" /\ Mode = "L1" THEN StepRecoverL1(e)
-     ELSE UNCHANGED <<c, run, r, skip>>
+     ELSE IF e.ev = "end" THEN StepEnd(e)
+     ELSE IF Mode = "L1" THEN
+          (IF e.ev = "next" THEN StepNextL1(e) ELSE IF e.ev = "recover" THEN StepRecoverL1(e) ELSE UNCHANGED <<c, run, r, m, skip>>)
+     ELSE IF e.ev \in {"next", "recover", "read"} THEN StepMon(e)
+     ELSE UNCHANGED <<c, run, r, m, skip>>
 Spec == Init /\ [][Next]_vars
 =============================================================================
